@@ -23,7 +23,8 @@ Definition d_sfail (v : val) : sfail :=
   | L [I 1; c] => SOSError (Some (dZ c))
   | L [I 2] => SNormal
   | L [I 3] => SProto
-  | _ => SOther
+  | L [I 4] => SOther
+  | _ => SInvalid
   end.
 
 Definition d_kind (v : val) : pkind :=
@@ -78,13 +79,15 @@ Definition v_exc (x : exc) : val :=
   | XNotAllowed => L [I 0] | XDisc c => L [I 1; I c] | XPayload => L [I 2] | XValue => L [I 3]
   | XType => L [I 4] | XOSError => L [I 5] | XOther => L [I 6] | XAssert => L [I 7]
   | XHTTPError s => L [I 8; I s] | XHTTPStatus s => L [I 9; I s] | XGeneric => L [I 10]
+  | XInvalidCode => L [I 11]
   end.
 
 Definition d_exc (v : val) : exc :=
   match v with
   | L [I 0] => XNotAllowed | L [I 1; c] => XDisc (dZ c) | L [I 2] => XPayload | L [I 3] => XValue
   | L [I 4] => XType | L [I 5] => XOSError | L [I 6] => XOther | L [I 7] => XAssert
-  | L [I 8; s] => XHTTPError (dZ s) | L [I 9; s] => XHTTPStatus (dZ s) | _ => XGeneric
+  | L [I 8; s] => XHTTPError (dZ s) | L [I 9; s] => XHTTPStatus (dZ s) | L [I 11] => XInvalidCode
+  | _ => XGeneric
   end.
 
 Definition v_value (x : value) : val :=
@@ -132,7 +135,7 @@ Definition d_event (v : val) : event :=
 Definition v_sfail (k : sfail) : val :=
   match k with
   | SOk => L [I 0] | SOSError None => L [I 1] | SOSError (Some c) => L [I 1; I c]
-  | SNormal => L [I 2] | SProto => L [I 3] | SOther => L [I 4]
+  | SNormal => L [I 2] | SProto => L [I 3] | SOther => L [I 4] | SInvalid => L [I 5]
   end.
 
 Definition v_attempt (a : event * sfail) : val := L [v_event (fst a); v_sfail (snd a)].
@@ -186,6 +189,8 @@ Definition run (v : val) : val :=
        vbool (features_ok (d_cfg c) (dlist d_attempt tr))]
   | L [I 3; c; p; o; r] => vbool (misuse_ok (d_cfg c) (d_pub p) (d_op o) (d_result r))
   | L [I 4; k; e; r] => vbool (recv_ok (dnat k) (d_cev e) (d_result r))
+  | L [I 7; cause; tr] => vbool (wrapper_retry_ok fallback_ws_error_code (dnat cause) (dlist d_attempt tr))
+  | L [I 6; o; a; b] => vbool (bad_payload_quiet (d_op o) (dnat a) (dnat b))
   | L [I 5; c; cause; s; tr] =>
     vbool (wrapper_close_ok (d_cfg c) fallback_ws_error_code 3000 (dnat cause) (dZ s)
                             (dlist d_attempt tr))
